@@ -532,7 +532,7 @@ impl Serial {
     // `Some(self)`, becomes `Some(*self)`), and the by-value method is the three-line glue below that makes the copy.
     //@fn src/repository/x509.rs :: impl Serial :: checked_mul_u8 as=checked_mul_u8_mutself loopiso
     //@sigsub R12 "mut self" "&mut self"
-    //@sub R12 "Some(self)" "Some(*self)"
+    //@sub R12 "Some(self)" "Some(*self)" n=all
     //@spec
         ensures
             r is Some <==> val(old(self).0) * rhs < limit(),
@@ -587,7 +587,7 @@ impl Serial {
 
     //@fn src/repository/x509.rs :: impl Serial :: checked_add_u8 as=checked_add_u8_mutself loopiso
     //@sigsub R12 "mut self" "&mut self"
-    //@sub R12 "Some(self)" "Some(*self)"
+    //@sub R12 "Some(self)" "Some(*self)" n=all
     //@spec
         ensures
             r is Some <==> val(old(self).0) + rhs < limit(),
